@@ -63,6 +63,14 @@ IsExternalPathItemCycle(line, bad) ==
 IsShareWholeFileLinkOrExample(line) ==
    /\ line.c.base.kind = "share" /\ "s" \in DOMAIN line.c /\ line.c.s.frag = "whole" /\ line.c.entry = "data"
    /\ {line.c.s.k1, line.c.s.k2} \cap {"link", "example"} # {}
+(* F-C20-11: the remainder of F-C20-9 after 10a87a4: the path item reached again from below itself is entered through ANOTHER    *)
+(*   path item that is a document-local reference to it ('/n0': {$ref: '#/paths/~1n1'}).  derefPaths still takes that local        *)
+(*   reference for external when it descends (pathIsExternal = isExternalRef(...)), so below it parentIsExternal is true and the   *)
+(*   callback's reference back is cleared after all.  Trigger: as F-C20-9, in one file, and the graph has a path item that is a    *)
+(*   pure reference to a path item.                                                                                                *)
+IsAliasedPathItemCycle(line, bad) ==
+   /\ IsInlinedPathItemCycle(line, bad) /\ ~IsExternalPathItemCycle(line, bad)
+   /\ \E n \in 1..Len(line.c.g.steps) : line.c.g.steps[n].site = "$ref" /\ line.c.g.steps[n].to = "pathItem"
 SelfOps == {"schema_self_allof_default", "schema_self_anyof_example", "schema_self_not_default"}
 Class(line, bad) ==
    \* (one of the mutations -- thorough applies pairs -- is a self-composition operator, and the process dies validating)
@@ -70,6 +78,7 @@ Class(line, bad) ==
       /\ ("died_in" \in DOMAIN line => line.died_in \in {"load", "validate", "validate_after"})
       /\ (\E s \in DOMAIN line.obs : line.obs[s] \in {"crash", "hang"}) THEN "self_composition_value_check_overflows" ELSE   \* ("hang": the watchdog may fire before the 1 GB stack is used up)
    IF IsExternalPathItemCycle(line, bad) THEN "internalize_inlines_external_path_item_cycle" ELSE
+   IF IsAliasedPathItemCycle(line, bad) THEN "internalize_inlines_aliased_path_item_cycle" ELSE
    IF IsInlinedPathItemCycle(line, bad) THEN "internalize_inlines_path_item_cycle" ELSE
    LET ms == (IF "applied" \in DOMAIN line THEN line.applied ELSE <<>>)  msg == IF "msg" \in DOMAIN line THEN line.msg ELSE "" IN
    IF bad # {"returns_normally"} \/ \E s \in DOMAIN line.obs : line.obs[s] \in {"hang", "crash"} THEN "none"
